@@ -16,3 +16,5 @@ def check(A):
     R.sid_cookie_rule(A, 'C11')
     R.constructor_rules(A, 'C11')
     R.jsonp_rule(A, 'C11')
+    R.generate_id_rules(A, 'C11')
+    R.asgi_close_reason_rule(A, 'C11')
